@@ -105,7 +105,7 @@ class Execution:
         def local(frame, event, arg):
             if event == "line":
                 rel = frame.f_lineno - first
-                if (limit is None or rel <= limit) and (pred is None or pred()):
+                if (limit is None or rel <= limit) and (pred is None or (pred(frame) if pred.__code__.co_argcount else pred())):
                     self.point(("line", frame.f_code.co_name, rel))
             return local
 
@@ -276,6 +276,6 @@ def install(select):
         wrapper.__name__ = name
         setattr(VFS_Real, name, wrapper)
 
-    for name in ("stat", "open", "listdir", "exists", "isfile", "isdir"):
+    for name in ("stat", "open", "listdir", "exists", "isfile", "isdir", "unlink"):
         wrap(name)
     _installed = True
